@@ -334,10 +334,8 @@ theorem takeWhile_all {α} (p : α → Bool) (l : List α) (h : (l.takeWhile p).
       · exact ih h y hy
     · simp [hp] at h
 
-/-- a row of real entries is a well-formed node row unless it is empty or the ambiguous single
-entry `leaf 0xff []` -/
-theorem wfRow_of_wfEntries {es : Entries} (h : WFEntries es) (hne : es.isNil = false)
-    (hamb : ∀ v, es ≠ .leaf 255 [] v .nil) : WFRow es := by
+/-- a non-empty row of real entries is a well-formed node row -/
+theorem wfRow_of_wfEntries {es : Entries} (h : WFEntries es) (hne : es.isNil = false) : WFRow es := by
   cases es with
   | nil => simp [Entries.isNil] at hne
   | leaf l suf v r =>
@@ -345,13 +343,7 @@ theorem wfRow_of_wfEntries {es : Entries} (h : WFEntries es) (hne : es.isNil = f
     have h' := h
     unfold WFEntries at h'
     right
-    refine ⟨?_, h'.1, h'.2.1, h'.2.2⟩
-    rintro ⟨rfl, rfl⟩
-    have := WFEntries.ff_last h'.2.2 h'.2.1 rfl
-    cases r with
-    | nil => exact hamb v rfl
-    | leaf _ _ _ _ => simp [Entries.isNil] at this
-    | child _ _ _ => simp [Entries.isNil] at this
+    exact ⟨h'.1, h'.2.1, h'.2.2⟩
   | child l n r =>
     unfold WFRow
     unfold WFEntries at h
@@ -368,7 +360,7 @@ def NodeSpec (fuel : Nat) : Prop :=
     (2 ≤ kvs.length ∨ ∃ k v, kvs = [(k, v)] ∧ k ≠ []) →
     ∃ n, buildNode fuel pfx kvs = some n ∧
       (∀ path, iterNode path n = kvs.map (fun kv => (path ++ pfx ++ kv.1, kv.2))) ∧
-      ((∀ v, kvs ≠ [([255], v)]) → WFNode n) ∧
+      WFNode n ∧ ((∀ v, kvs ≠ [([255], v)]) → NoSingleFF n.entries) ∧
       (2 ≤ kvs.length → 2 ≤ n.entries.length)
 
 /-- … and about one call of `buildEntries` -/
@@ -458,7 +450,7 @@ theorem entriesSpec_step (fuel : Nat) (hN : NodeSpec fuel) (hE : EntriesSpec fue
       have hgrp_ne : ∀ kv ∈ grp, kv.1 ≠ [] := fun kv h => hne kv (hgrp_mem kv h)
       have hgrp_sorted : Sorted grp := by rw [← hgrp_take]; exact hs.take _
       have hsz2 := kvSize_tails hgrp_ne
-      obtain ⟨n, hn1, hn2, hn3, hn4⟩ := hN [] (tails grp)
+      obtain ⟨n, hn1, hn2, hwfn, _, hn4⟩ := hN [] (tails grp)
         (by rw [hgrp_take] at hsz; omega)
         (sorted_tails hgrp_sorted hgrp_ne hgrp_hd) (bytesOK_tails (hb.sub hgrp_mem))
         (Or.inl (by rw [tails_length]; exact hw2))
@@ -468,10 +460,6 @@ theorem entriesSpec_step (fuel : Nat) (hN : NodeSpec fuel) (hE : EntriesSpec fue
         simp only [this]
         rw [hgrp_take, hn1, he1]
         simp
-      have hwfn : WFNode n := hn3 (by
-        intro v' e
-        have := congrArg List.length e
-        rw [tails_length] at this; simp at this; omega)
       have hlen2 : 2 ≤ n.entries.length := hn4 (by rw [tails_length]; exact hw2)
       have hwf : WFEntries (.child (k.headD 0) n es') := by
         unfold WFEntries; exact ⟨hc255, habove, hwfn, hlen2, he3⟩
@@ -517,17 +505,16 @@ theorem nodeSpec_step (fuel : Nat) (hN : NodeSpec fuel) (hE : EntriesSpec fuel) 
         simp only [buildNode]
         rw [← hr, any_isEmpty_false hne, he1]
         simp
-    refine ⟨_, hb', ?_, ?_, ?_⟩
+    have hlen2 : 2 ≤ (Node.mk pfx (.leaf labelTerminator [] v0 es)).entries.length := by
+      have := length_pos_of_isNil_false hnil
+      simp only [Node.entries, Entries.length]; omega
+    refine ⟨_, hb', ?_, ?_, fun _ => noSingleFF_of_length hlen2, fun _ => hlen2⟩
     · intro path
       simp only [iterNode, iterEntries, hnil, labelTerminator, beq_self_eq_true, Bool.not_false, Bool.and_self,
         if_true, he2, List.map_cons, List.append_nil]
-    · intro _
-      unfold WFNode WFRow
+    · unfold WFNode WFRow
       left
       exact ⟨rfl, rfl, hnil, he3⟩
-    · intro _
-      have := length_pos_of_isNil_false hnil
-      simp only [Node.entries, Entries.length]; omega
   | (c :: k', v0) :: rest, hf, hs, hb, hlen =>
     have hne : ∀ kv ∈ (c :: k', v0) :: rest, kv.1 ≠ [] := by
       intro kv hkv
@@ -563,34 +550,26 @@ theorem nodeSpec_step (fuel : Nat) (hN : NodeSpec fuel) (hE : EntriesSpec fuel) 
         | nil => simp at hn1
         | cons _ _ => simp
       have hsz := kvSize_tails hne
-      obtain ⟨n, hn1', hn2, hn3, hn4⟩ := hN (pfx ++ [c]) (tails ((c :: k', v0) :: rest))
+      obtain ⟨n, hn1', hn2, hn3, _, hn4⟩ := hN (pfx ++ [c]) (tails ((c :: k', v0) :: rest))
         (by omega) (sorted_tails hs hne hallc) (bytesOK_tails hb) (Or.inl (by rw [tails_length]; exact hlen2))
-      refine ⟨n, by rw [hbn, hn1'], ?_, ?_, ?_⟩
-      · intro path
-        rw [hn2]
-        have := map_tails hne hallc (path ++ pfx)
-        simp only [List.append_assoc] at this ⊢
-        exact this
-      · intro _
-        exact hn3 (by
-          intro v' e
-          have := congrArg List.length e
-          rw [tails_length] at this
-          simp only [List.length_cons, List.length_nil] at this hlen2
-          omega)
-      · intro _
-        exact hn4 (by rw [tails_length]; exact hlen2)
+      have hl2 := hn4 (by rw [tails_length]; exact hlen2)
+      refine ⟨n, by rw [hbn, hn1'], ?_, hn3, fun _ => noSingleFF_of_length hl2, fun _ => hl2⟩
+      intro path
+      rw [hn2]
+      have := map_tails hne hallc (path ++ pfx)
+      simp only [List.append_assoc] at this ⊢
+      exact this
     · -- a branching node (or a single key): the entries of its label groups
       rw [if_neg hcomp] at hbn
       obtain ⟨es, he1, he2, he3, _, he5, he6⟩ := hE ((c :: k', v0) :: rest) (by omega) hs hb hne
       have hnil := he5 (by simp)
-      refine ⟨.mk pfx es, by rw [hbn, he1]; rfl, ?_, ?_, ?_⟩
+      refine ⟨.mk pfx es, by rw [hbn, he1]; rfl, ?_, ?_, ?_, ?_⟩
       · intro path
         simp only [iterNode, he2, List.append_assoc]
-      · intro hamb
-        unfold WFNode
-        apply wfRow_of_wfEntries he3 hnil
-        intro v e
+      · unfold WFNode
+        exact wfRow_of_wfEntries he3 hnil
+      · intro hamb v e
+        simp only [Node.entries] at e
         have h2 := he2 []
         rw [e] at h2
         simp [iterEntries, Entries.isNil] at h2
